@@ -129,9 +129,17 @@ class Interp:
         self.solver.set("timeout", budget)
         r = self.solver.check(*assumptions)
         if proof and r == z3.unknown and (time.time() - t) * 1000 >= 0.8 * budget:
-            # timed out (not 'gave up on quantifiers'): one retry with three times the budget (loaded machine)
-            self.solver.set("timeout", 3 * budget)
-            r = self.solver.check(*assumptions)
+            # timed out (not 'gave up on quantifiers'): quantifier instantiation is sensitive to the search order, so the
+            # same query is retried on FRESH solvers with other random seeds and three times the budget (a verdict must
+            # not flip on a loaded machine)
+            for seed in (7, 23):
+                s2 = z3.Solver()
+                s2.set("timeout", 3 * budget)
+                s2.set("random_seed", seed)
+                s2.add(*self.solver.assertions())
+                r = s2.check(*assumptions)
+                if r != z3.unknown:
+                    break
         self.solver_time += time.time() - t
         return r
 
